@@ -140,6 +140,7 @@ def normalise(rel: str, tree: ast.Module) -> int:
     if not ref:
         return 0
     n = 0
+    kw_renames: Dict[str, Dict[str, str]] = {}
 
     def visit(body, prefix):
         nonlocal n
@@ -152,7 +153,12 @@ def normalise(rel: str, tree: ast.Module) -> int:
                     if h == r[0] and names != r[1] and len(names) == len(r[1]):
                         # parameters keep their names (callers pass them by keyword); only true locals are renamed
                         nparams = len(_param_names(st))
-                        if names[:nparams] == r[1][:nparams]:
+                        # parameters keep their names (callers pass them by keyword) — except those of private
+                        # module-level helpers, whose keyword call sites in the same file are renamed with them
+                        private = prefix == "" and st.name.startswith("_") and not st.name.startswith("__")
+                        if names[:nparams] == r[1][:nparams] or private:
+                            if names[:nparams] != r[1][:nparams]:
+                                kw_renames[st.name] = {a: b for a, b in zip(names[:nparams], r[1][:nparams]) if a != b}
                             mp = {a: b for a, b in zip(names, r[1]) if a != b}
                             # two-step to avoid capture
                             tmp = {a: f"__alpha_{i}" for i, a in enumerate(mp)}
@@ -167,6 +173,12 @@ def normalise(rel: str, tree: ast.Module) -> int:
                     visit(blk, prefix)
 
     visit(tree.body, "")
+    if kw_renames:
+        for c in ast.walk(tree):
+            if isinstance(c, ast.Call) and isinstance(c.func, ast.Name) and c.func.id in kw_renames:
+                for k in c.keywords:
+                    if k.arg in kw_renames[c.func.id]:
+                        k.arg = kw_renames[c.func.id][k.arg]
     return n
 
 
